@@ -38,7 +38,7 @@ def plan(tier):
 
 
 def required_counters(tier):
-    return [f"sub:{s}" for s in set(SUBS)] + ["offset_magnitude", "ddof0", "masked", "unused_category_or_emptied_group", "multi_column_apply"]
+    return [f"sub:{s}" for s in set(SUBS)] + ["offset_magnitude", "ddof0", "masked", "unused_category_or_emptied_group", "multi_column_apply", "int_group_sum_above_3e9"]
 
 
 def features(case):
@@ -49,6 +49,12 @@ def features(case):
         f.append("ddof0")
     if case.get("magnitude") == "offset":
         f.append("offset_magnitude")
+    if case.get("magnitude") == "mid":
+        lk_ = common.lkeys_ns(case["keys"])
+        for rows in model.group_rows(lk_).values():
+            if abs(sum(case["val"]["vals"][i] or 0 for i in rows)) > 3_100_000_000:
+                f.append("int_group_sum_above_3e9")
+                break
     lk = common.lkeys_ns(case["keys"])
     sel = gen.mask_selection(case["mask"], case["n"])
     if len(model.group_rows(lk, sel)) < len(model.group_rows(lk)) or any(k["kind"] == "cat" for k in case["keys"]):
@@ -301,8 +307,11 @@ def gen_case(rng, dtypes):
     lk = common.lkeys_ns(keys)
     dtype = gen.pick(rng, dtypes)
     dt = np.dtype(dtype)
-    mag = gen.pick(rng, ["small", "frac", "big", "offset", "tiny"]) if dt.kind == "f" else "small"
+    # integers up to 2e8: group sums beyond 3e9 (whose square leaves int64) while the sums of squares stay far inside float64
+    mag = gen.pick(rng, ["small", "frac", "big", "offset", "tiny"]) if dt.kind == "f" else (gen.pick(rng, ["small", "mid", "mid"]) if dt.itemsize >= 4 else "small")
     val = gen.gen_vals(rng, n, dtype, magnitude="frac" if mag == "tiny" else mag, name=gen.pick(rng, [None, "v"]))
+    if mag == "mid":
+        val["vals"] = [None if v is None else abs(v) for v in val["vals"]]  # one sign: the group sums grow with the group
     if mag == "tiny":
         val["vals"] = [None if v is None else float(np.dtype(dtype).type(v * 1e-6)) for v in val["vals"]]
     if val["null_mode"] == "allnull_group":
